@@ -142,8 +142,8 @@ func VerifLemma_C14C_MapViewRead() {
 			if i >= 0 {
 				verifAssert(external[k] == m[i].path, "map view Walk: external path is the delegate's")
 			}
-			if k > 0 {
-				verifAssert(visited[k-1] < visited[k], "map view Walk: strictly increasing names (each once)")
+			for j := 0; j < k; j++ {
+				verifAssert(visited[j] != visited[k], "map view Walk: no name is visited twice")
 			}
 		}
 	}
@@ -161,7 +161,8 @@ func VerifLemma_C14C_MapViewWrite() {
 	verifCover("state and argument")
 	switch verifNondetChoice(3) {
 	case 0:
-		woc, err := view.Put(ctx, s)
+		// PutWithAtomic: only then is "invisible until Close" part of the documented contract
+		woc, err := view.Put(ctx, s, storage.PutWithAtomic())
 		if !valid || key == "." {
 			verifAssert(err != nil, "map view Put: invalid or root path is an error")
 			break
@@ -316,8 +317,8 @@ func VerifLemma_C14C_Filter() {
 		for k := range visited {
 			i := m.find(visited[k])
 			verifAssert(i >= 0 && refCContains(key, visited[k]) && pred(visited[k]), "filter Walk: every visited object matches and is under the prefix")
-			if k > 0 {
-				verifAssert(visited[k-1] < visited[k], "filter Walk: strictly increasing (each once)")
+			for j := 0; j < k; j++ {
+				verifAssert(visited[j] != visited[k], "filter Walk: no object is visited twice")
 			}
 		}
 	}
@@ -717,20 +718,25 @@ func VerifLemma_C14C_NestedUnion() {
 		add(ma)
 		add(mb)
 		add(mc)
-		anyDup := false
+		anyDup, shadowedDup := false, false
 		for _, k := range keys {
 			if _, dup := resolve(k); dup {
 				anyDup = true
 			}
-			// Walk visits every member: a duplicate inside the nested *union* is reported even when an earlier
-			// overlay member shadows that path for Get/Stat ("reports, rather than hides")
+			// A duplicate inside the nested *union* whose path an earlier overlay member shadows: the current code
+			// reports it on Walk (every member is walked); succeeding with the shadowing object would be just as
+			// consistent with Get/Stat. Either is accepted, but an error must be the duplicate error.
 			if _, innerDup := refCResolve(innerOverlay, vcTagOf(ma, "1:", k), false, vcTagOf(mb, "2:", k), false); innerDup {
-				anyDup = true
+				shadowedDup = true
 			}
 		}
 		if anyDup {
 			verifCover("nested Walk duplicate")
 			verifAssert(err != nil && storage.IsExistsMultipleLocations(err), "nested union Walk: a duplicate under the prefix that the composed rules report is reported")
+			break
+		}
+		if shadowedDup && err != nil {
+			verifAssert(storage.IsExistsMultipleLocations(err), "nested union Walk: the only error for resolvable paths is the report of a shadowed nested duplicate")
 			break
 		}
 		verifAssert(err == nil, "nested union Walk: succeeds when the composed rules resolve every path (no spurious duplicate error)")
